@@ -165,6 +165,13 @@ Definition similar_names : ty :=
            (* collections of a struct made of integers, booleans and strings only (comparable with ==, no float, no pointer) *)
            ("Cells", TSlice cell); ("CM", TMap t_string cell); ("PC", TSlice (TPtr cell)); ("One", cell)].
 
+(* NAMED map and slice types as value / element of anonymous maps and slices (the type name a parser composes for the outer
+   collection must keep the inner type's name).  Outside [sup_root]: a unit of the units stream (C13, C14) only. *)
+Definition nested_named : ty :=
+  TStruct [("FS", TMap t_string (TNamed "NFlagSet" (TMap t_string t_int32))); ("LS", TSlice (TNamed "NIntList" (TSlice t_int32)));
+           ("LM", TMap t_int32 (TNamed "NIntList" (TSlice t_int32))); ("PM", TMap t_string (TPtr (TNamed "NFlagSet" (TMap t_string t_int32))));
+           ("N", t_int32)].
+
 (* a struct with one field per scalar kind: K0 .. K14 *)
 Definition kinds_struct (f : skind -> ty) (ks : list skind) : ty :=
   TStruct ((fix go (i : nat) (l : list skind) : list (string * ty) :=
@@ -209,7 +216,7 @@ Definition multi : list ty :=
    kinds_struct (fun k => TSlice (TScalar k)) all_skinds;
    kinds_struct (fun k => TMap t_string (TScalar k)) all_skinds;
    kinds_struct (fun k => TMap (TScalar k) t_string) (filter (fun k => match k with SByte => false | _ => true end) all_skinds);
-   shared_names; value_chain; unicode_names; similar_names].
+   shared_names; value_chain; unicode_names; similar_names; nested_named].
 
 Definition rep_shapes : list ty :=
   dedup_ty (shapes1 rep_skinds ++ shapes2 [SString; SInt KInt32] [SInt KInt32; SString]).
